@@ -344,6 +344,16 @@ theorem c01_trr_offsets (fs : List Frame) (nb nx : Nat) (h : ∀ f ∈ fs, f.box
     simp only [bytesOfWords] at e
     rw [e, this, List.length_cons, Nat.add_mul, Nat.one_mul, Nat.add_comm]
 
+/-- **the .xtc layout of small systems** (at most nine atoms: coordinates stored as plain floats): header, box and coordinates of every frame
+are read back from the bytes -/
+theorem c01_xtc_small_roundtrip (fs : List XtcFrame) (h : ∀ f ∈ fs, f.SmallWF) : readXtc (writeXtc fs) = some fs := by
+  have hb : ∀ w ∈ fs.flatMap renderXtc, w < 4294967296 := by
+    intro w hw
+    obtain ⟨f, hf, hwf⟩ := List.mem_flatMap.mp hw
+    exact renderXtc_bound f (h f hf) w hwf
+  simp only [readXtc, writeXtc, toWords_bytesOfWords _ hb, Option.bind_some]
+  exact parseXtcAll_render fs h _ (by have := flatMap_xtc_length fs; omega)
+
 /-! single precision words (tests of the decoder on constants) -/
 example : f32ToRat 0x3F800000 = some 1 := by decide +kernel
 example : f32ToRat 0xBFC00000 = some (-3/2) := by decide +kernel
